@@ -231,7 +231,11 @@ def canon(cx, n, at, depth=0):
     if k == "bin":
         o = nd["o"]
         if o in ("+", "-"):
-            return add(canon(cx, nd["c"][0], at, depth + 1), canon(cx, nd["c"][1], at, depth + 1), 1 if o == "+" else -1)
+            A, B = canon(cx, nd["c"][0], at, depth + 1), canon(cx, nd["c"][1], at, depth + 1)
+            if o == "-" and (fn.type(n) or "").startswith("unsigned") and B[0] > 0 and not B[1] and A[1]:
+                # `len - k` computed in an unsigned type wraps around when len < k: not a linear fact
+                return (0, {fn.txt(n): 1})
+            return add(A, B, 1 if o == "+" else -1)
         if o == "*":
             a = canon(cx, nd["c"][0], at, depth + 1)
             b = canon(cx, nd["c"][1], at, depth + 1)
@@ -1293,7 +1297,7 @@ def witnesses(prog, res):
         elif name.startswith("witness_ok_"):
             n += 1
             res.witness.append((name, name not in flagged))
-    if n < 16:
+    if n < 17:
         res.broken.append("C01.i witness file yielded only %d functions" % n)
 
 
